@@ -20,7 +20,8 @@ from . import imp_gen as IG
 RULE = ("K-rt: all 18 combinations (defer, namespace environment at def time in {none, E1, E2}, environment installed "
         "by _from_namespace in {none, E1, E2}); K-gen: every template source of the generated sets; oracle: generated "
         "inheritance hierarchies (C04 generator) and include/import sets (C05 generator) x {folder, stored zip, "
-        "deflated zip}; distinct = (sources, data, mode); non-trivial = at least two templates take part and the "
+        "deflated zip}, from a DictLoader and from files through a FileSystemLoader with the template names in "
+        "include / import / extends tags spelled x, ./x, /x, .//x; distinct = (sources, data, mode); non-trivial = at least two templates take part and the "
         "source render produces output.")
 
 
@@ -170,6 +171,69 @@ def run(ctx):
                     ctx.validated()
     finally:
         shutil.rmtree(scratch_root, ignore_errors=True)
+    fs_stream(ctx, jinja2, ModuleLoader)
+
+
+SPELLINGS = ["%s", "./%s", "/%s", ".//%s", "%s", "%s"]
+
+
+def respell(rng, src, names):
+    """write the template names inside include / import / from / extends tags the way people do with a
+    FileSystemLoader: './x', '/x', './/x' all mean x there (split_template_path drops '.' and empty parts)"""
+    import re
+
+    def sub(m):
+        return m.group(1) + repr(rng.choice(SPELLINGS) % m.group(2))
+    pat = r"((?:include|import|from|extends)\s+\[?\s*)'(" + "|".join(re.escape(n) for n in names) + r")'"
+    return re.sub(pat, sub, src)
+
+
+def fs_stream(ctx, jinja2, ModuleLoader):
+    """source loading through a FileSystemLoader (which normalises names) against the module loader"""
+    hg = HG.HGen(ctx.rng)
+    ig = IG.IGen(ctx.rng, own_globals=0.0, shadow=0.0)
+    root = os.path.join(lib.BUILD, f"c31_fs_{os.getpid()}")
+    try:
+        for idx in range(ctx.size(120, 1200)):
+            if idx % 2:
+                s = hg.hierarchy()
+                kind, srcs = "inh", HG.sources(s)
+            else:
+                s = ig.tset()
+                kind, srcs = "imp", IG.sources(s)
+            names = list(srcs)
+            srcs = {n: respell(ctx.rng, src, names) for n, src in srcs.items()}
+            sdir = os.path.join(root, f"s{idx}", "src")
+            os.makedirs(sdir, exist_ok=True)
+            for n, src in srcs.items():
+                with open(os.path.join(sdir, n), "w", encoding="utf-8", newline="") as f:
+                    f.write(src)
+            mode = (None, "stored", "deflated")[idx % 3]
+            target = os.path.join(root, f"s{idx}", "out" + (".zip" if mode else ""))
+            try:
+                fs_env = jinja2.Environment(loader=jinja2.FileSystemLoader(sdir))
+                ref = render(jinja2, kind, s, srcs, jinja2.FileSystemLoader(sdir))
+                try:
+                    fs_env.compile_templates(target, zip=mode, log_function=lambda x: None, ignore_errors=False)
+                    got = render(jinja2, kind, s, srcs, ModuleLoader(target))
+                except Exception as e:  # noqa
+                    got = "X:compile_templates/ModuleLoader:" + type(e).__name__ + ":" + str(e)[:80]
+            finally:
+                shutil.rmtree(os.path.join(root, f"s{idx}"), ignore_errors=True)
+            respelled = any(("'./" in v) or ("'/" in v) for v in srcs.values())
+            nontriv = respelled and ref.startswith("O ") and len(ref) > 6
+            ctx.case(sample={"sources": srcs, "zip": mode, "render": ref, "loader": "FileSystemLoader"} if nontriv else None,
+                     key=("fs", idx) if nontriv else None)
+            ctx.count("fs-source:" + ("respelled" if respelled else "plain"))
+            if got != ref:
+                ctx.reject({"kind": kind, "sources": srcs, "set": s, "zip": mode, "loader": "fs"},
+                           f"precompiled ({mode or 'folder'}) renders {got[:120]} but loading the same files through "
+                           f"FileSystemLoader renders {ref[:120]}",
+                           "C31:unnormalised-template-name" if respelled and "NotFound" in got else None)
+            else:
+                ctx.validated()
+    finally:
+        shutil.rmtree(root, ignore_errors=True)
 
 
 def render(jinja2, kind, s, srcs, loader):
@@ -187,11 +251,20 @@ def replay(ctx, data):
         print("replay: this file names a broken theorem/correspondence, not an input:", data.get("broken"))
         return run(ctx)
     srcs, s, kind, mode = case["sources"], case["set"], case["kind"], case["zip"]
+    use_fs = case.get("loader") == "fs"
     if kind == "inh":
         s = dict(s, templates=[dict(t, tops=[tuple(x) if x[0] == "x" else x for x in t["tops"]]) for t in s["templates"]])
     target = os.path.join(lib.BUILD, f"c31_replay_{os.getpid()}" + (".zip" if mode else ""))
-    src_env = jinja2.Environment(loader=jinja2.DictLoader(srcs))
-    ref = render(jinja2, kind, s, srcs, jinja2.DictLoader(srcs))
+    src_loader = jinja2.DictLoader(srcs)
+    sdir = os.path.join(lib.BUILD, f"c31_replay_src_{os.getpid()}")
+    if use_fs:
+        os.makedirs(sdir, exist_ok=True)
+        for n, src in srcs.items():
+            with open(os.path.join(sdir, n), "w", encoding="utf-8", newline="") as f:
+                f.write(src)
+        src_loader = jinja2.FileSystemLoader(sdir)
+    src_env = jinja2.Environment(loader=src_loader)
+    ref = render(jinja2, kind, s, srcs, src_loader)
     try:
         try:
             src_env.compile_templates(target, zip=mode, log_function=lambda x: None, ignore_errors=False)
@@ -203,6 +276,7 @@ def replay(ctx, data):
             shutil.rmtree(target, ignore_errors=True)
         elif os.path.exists(target):
             os.unlink(target)
+        shutil.rmtree(sdir, ignore_errors=True)
     print("source     :", ref, "\nprecompiled:", got)
     if got != ref:
         ctx.reject(case, f"precompiled ({mode or 'folder'}) renders {got[:120]} but source loading renders {ref[:120]}")
